@@ -147,8 +147,8 @@ GenCmd(ed, sd, t, j) ==
                               (* 1: "s/re/", 2: "s/re" - only for a non-empty pattern (an empty one would end the command line early) *)
                               short |-> IF re = <<>> THEN 0 ELSE Pick(sd, t, j + 19, 3)]
          [] kind \in {"g", "v"} -> [k |-> kind, loc |-> IF loc = <<>> \/ Pick(sd, t, j + 15, 3) = 0 THEN <<>> ELSE loc,
-                                    re |-> Elem(sd, t, j + 12, PatPool),
-                                    cmds |-> LET nc == 1 + Pick(sd, t, j + 13, 4) \div 3 IN
+                                    re |-> Elem(sd, t, j + 12, PatPool), sp |-> Pick(sd, t, j + 21, 3),
+                                    cmds |-> LET nc == 1 + Pick(sd, t, j + 13, 4) \div 2 IN
                                              [i \in 1..nc |->
                                                 LET gc == GlobCmd(ed, sd, t, j + 16 + 5 * i) IN
                                                 (* a nested global takes the rest of the line: only in last place *)
